@@ -50,9 +50,15 @@ package index
 // contracts (C08) instead. The connection between the two is refinement gap
 // GAP-1 and is listed as an assumption in the evidence.
 
+// Object invariant of an open Index: handles present, configuration in range, current file
+// length bounded (it exceeds the limit by at most one record).
 //@ type Index
+//@   invariant @handles self.file != nil && self.writer != nil
+//@   invariant @config self.maxFileSize > 0 && self.maxFileSize <= (1 << 30) && self.length < (1 << 32)
 //@   ghost field $Ein (Array Bytes Bool)
 //@   ghost field $Eblk (Array Bytes Int)
+//@   ghost field $pending Bool
+// idx.$pending - some index update has not been written to the index files yet (flush ordering D1).
 
 //@ func (idx *Index) Get(key []byte) (blk types.Block, found bool, err error)
 //@   abstract gap GAP-1: pools+disk record lists implement the ghost index map
@@ -64,7 +70,8 @@ package index
 
 //@ func (idx *Index) Put(key []byte, location types.Block) (err error)
 //@   abstract gap GAP-1: pools+disk record lists implement the ghost index map
-//@   abstract modifies idx.$Ein, idx.$Eblk
+//@   abstract modifies idx.$Ein, idx.$Eblk, idx.$pending
+//@   abstract ensures idx.$pending || (idx.$Ein == old(idx.$Ein) && idx.$Eblk == old(idx.$Eblk) && !old(idx.$pending))
 //@   abstract ensures err == nil && old(idx.$Ein)[bytes(key)] ==> idx.$Ein == old(idx.$Ein) && idx.$Eblk == old(idx.$Eblk)
 //@   abstract ensures err == nil && !old(idx.$Ein)[bytes(key)] ==> idx.$Ein == old(idx.$Ein)[bytes(key) := true] && idx.$Eblk == old(idx.$Eblk)[bytes(key) := keyof(location)]
 //@   abstract ensures err != nil ==> idx.$Ein == old(idx.$Ein) && idx.$Eblk == old(idx.$Eblk)
@@ -72,14 +79,16 @@ package index
 
 //@ func (idx *Index) Update(key []byte, location types.Block) (err error)
 //@   abstract gap GAP-1: pools+disk record lists implement the ghost index map
-//@   abstract modifies idx.$Eblk
+//@   abstract modifies idx.$Eblk, idx.$pending
+//@   abstract ensures idx.$pending || (idx.$Eblk == old(idx.$Eblk) && !old(idx.$pending))
 //@   abstract ensures err == nil ==> old(ihit(idx.$Ein, idx.$Eblk, bytes(key))) && idx.$Eblk == old(idx.$Eblk)[old(ires(idx.$Ein, idx.$Eblk, bytes(key))) := keyof(location)]
 //@   abstract ensures err != nil ==> idx.$Eblk == old(idx.$Eblk)
 //@   abstract ensures err != types.ErrKeyExists
 
 //@ func (idx *Index) Remove(key []byte) (removed bool, err error)
 //@   abstract gap GAP-1: pools+disk record lists implement the ghost index map
-//@   abstract modifies idx.$Ein
+//@   abstract modifies idx.$Ein, idx.$pending
+//@   abstract ensures idx.$pending || (idx.$Ein == old(idx.$Ein) && !old(idx.$pending))
 //@   abstract ensures err == nil ==> removed == old(ihit(idx.$Ein, idx.$Eblk, bytes(key)))
 //@   abstract ensures err == nil && removed ==> idx.$Ein == old(idx.$Ein)[old(ires(idx.$Ein, idx.$Eblk, bytes(key))) := false]
 //@   abstract ensures (err == nil && !removed) || err != nil ==> idx.$Ein == old(idx.$Ein)
@@ -100,9 +109,19 @@ package index
 //@   ensures ok == ((bucket in idx.nextPool) || (bucket in idx.curPool))
 //@   ensures !ok ==> data == nil
 
-//@ func (idx *Index) flushBucket(bucket BucketIndex, newData []byte) (blk types.Block, work types.Work, err error)  property C16
+// flushBucket (C01/C02/C07): the location handed back for the record list is the position
+// encoding of where its data starts: ibpos(file, m, start+4) with start < m the offset of the
+// size prefix in the file the record is written to (after a possible roll-over).
+//@ func (idx *Index) flushBucket(bucket BucketIndex, newData []byte) (blk types.Block, work types.Work, err error)  property C02 C07
 //@   holds idx.flushLock
-//@   modifies idx.file, idx.fileNum, idx.length, heap("G:os.File.$open")
+//@   preserves idx
+//@   requires len(newData) < (1 << 31) - 8
+//@   modifies idx.file, idx.fileNum, idx.length, fp(IO)
+//@   ensures @start-below-limit err == nil ==> idx.length - (len(newData) + 8) < idx.maxFileSize
+//@   ensures @position err == nil ==> blk.Offset == wrapu64(ibpos(idx.fileNum, idx.maxFileSize, idx.length - len(newData) - 4))
+//@   ensures @size err == nil ==> blk.Size == len(newData) + 4 && work == len(newData) + 8
+//@   ensures @rollover err == nil ==> (old(idx.length) >= idx.maxFileSize ==> idx.fileNum == wrapu32(old(idx.fileNum) + 1) && idx.length == len(newData) + 8) && (old(idx.length) < idx.maxFileSize ==> idx.fileNum == old(idx.fileNum) && idx.length == old(idx.length) + len(newData) + 8)
+//@   ensures @nonzero err == nil ==> blk.Offset != 0 || wrapu64(ibpos(idx.fileNum, idx.maxFileSize, idx.length - len(newData) - 4)) == 0
 
 // Iteration is documented as not safe against concurrent writers ("any write to the store
 // potentially invalidates the iterator") and is not among the operations C16 lists.
@@ -120,3 +139,76 @@ package index
 
 //@ func (idx *Index) Close$1()  property C16
 //@   exclusive Close runs after all users of the index have stopped (Store.Close contract, C17)
+
+// ---------------------------------------------------------------------------
+// Flush ordering (DESIGN.md §4 C03, D1): the index log may only be extended when every
+// primary record it can refer to is already in the primary files.
+//@ func (idx *Index) Flush() (work types.Work, err error)
+//@   abstract gap GAP-1: pools+disk record lists implement the ghost index map
+//@   requires @D1-primary-first !idx.Primary.$pending
+//@   abstract modifies idx.$pending
+//@   abstract ensures err == nil ==> !idx.$pending
+//@   abstract ensures old(!idx.$pending) ==> !idx.$pending
+//@ func (idx *Index) Sync() (err error)
+//@   trusted fsync of the current index file: no effect on modelled state
+
+// ---------------------------------------------------------------------------
+// Bucket table, snapshot save/load, Close (C02, C03, C07, C17).
+
+//@ func (b Buckets) Put(index BucketIndex, offset types.Position) (err error)  property C07
+//@   modifies elems(b)
+//@   ensures @bounds err == nil <==> index < len(b)
+//@   ensures @stored err == nil ==> b[index] == offset
+//@   ensures @others forall j int :: 0 <= j && j < len(b) && j != index ==> b[j] == old(b[j])
+//@   ensures @err-unchanged err != nil ==> forall j int :: 0 <= j && j < len(b) ==> b[j] == old(b[j])
+
+//@ func (b Buckets) Get(index BucketIndex) (offset types.Position, err error)  property C07
+//@   ensures @bounds err == nil <==> index < len(b)
+//@   ensures @value err == nil ==> offset == b[index]
+
+// saveBucketState (C02): the snapshot is written to a temporary file and only renamed onto
+// the snapshot name after every byte was flushed and the file closed without error.
+//@ func (idx *Index) saveBucketState() (err error)  property C02
+//@   modifies fp(IO)
+//@   ghost var gflushed bool = false
+//@   ghost var gclosed bool = false
+//@   ghost at after call (*bufio.Writer).Flush#0: gflushed = ($r0 == nil)
+//@   ghost at after call (*os.File).Close#0: gclosed = ($r0 == nil)
+//@   assert at before call os.Create#0: @tmp-name $a0 == idx.basePath + ".buckets" + ".tmp"
+//@   assert at before call os.Rename#0: @rename-last gflushed && gclosed
+//@   assert at before call os.Rename#0: @rename-names $a0 == idx.basePath + ".buckets" + ".tmp" && $a1 == idx.basePath + ".buckets"
+//@   ensures @one-rename event("call:os.Rename") <= 1 && (err == nil ==> event("call:os.Rename") == 1)
+//@   ensures @no-other-mutation event("call:os.Remove") == 0 && event("call:os.Truncate") == 0 && event("call:os.WriteFile") == 0
+//@   loop 0 invariant 0 <= $idx && $idx <= len(idx.buckets) && !gflushed && !gclosed && event("call:os.Rename") == 0
+//@   loop 0 invariant event("call:os.Remove") == 0 && event("call:os.Truncate") == 0 && event("call:os.WriteFile") == 0 && len(buf) == 8
+
+// loadBucketState (C02, C03-D4): once the snapshot file was opened it is removed on every
+// path, so a later crash falls back to scanning the index log.
+//@ func loadBucketState(ctx context.Context, basePath string, buckets Buckets, maxFileSize uint32) (err error)  property C02 C03
+//@   modifies elems(buckets), fp(IO), ctx.$done
+//@   ghost var gopened bool = false
+//@   ghost at after call os.Open#0: gopened = ($r1 == nil)
+//@   assert at before call os.Open#0: @snapshot-name $a0 == basePath + ".buckets"
+//@   assert at before call os.Remove#0: @remove-name $a0 == basePath + ".buckets"
+//@   ensures @D4-snapshot-removed gopened ==> event("call:os.Remove") == 1
+//@   ensures @no-other-mutation event("call:os.Rename") == 0 && event("call:os.Truncate") == 0 && event("call:os.WriteFile") == 0 && (!gopened ==> event("call:os.Remove") == 0)
+//@   ensures @not-opened-unchanged !gopened ==> err != nil && forall j int :: 0 <= j && j < len(buckets) ==> buckets[j] == old(buckets[j])
+//@   loop 0 invariant 0 <= i && i <= len(buckets) && gopened && len(buf) == 8 && event("call:os.Remove") == 0
+//@   loop 0 invariant event("call:os.Rename") == 0 && event("call:os.Truncate") == 0 && event("call:os.WriteFile") == 0
+
+// Index.Flush (C03-D2): the in-memory bucket table is only updated after the new record lists
+// were handed to the operating system (writer.Flush returned nil); on an error before that the
+// table is unchanged.
+//@ func (idx *Index) Flush() (work types.Work, err error)  property C03
+//@   preserves idx
+//@   requires @record-size-limit forall b BucketIndex :: (b in idx.nextPool) ==> len(idx.nextPool[b]) < (1 << 31) - 8
+//@   modifies idx.curPool, idx.nextPool, idx.outstandingWork, idx.file, idx.fileNum, idx.length, elems(idx.buckets), fp(IO)
+//@   ghost var gflushed bool = false
+//@   ghost at after call (*bufio.Writer).Flush#0: gflushed = ($r0 == nil)
+//@   assert at before call index.Buckets.Put#0: @D2-table-after-log gflushed
+//@   ensures @D2-error-keeps-table !gflushed ==> forall j int :: 0 <= j && j < len(idx.buckets) ==> idx.buckets[j] == old(idx.buckets[j])
+//@   loop 0 invariant held(idx.flushLock) && !gflushed && idx.buckets == old(idx.buckets) && idx.maxFileSize == old(idx.maxFileSize)
+//@   loop 0 invariant forall j int :: 0 <= j && j < len(idx.buckets) ==> idx.buckets[j] == old(idx.buckets[j])
+//@   loop 0 invariant inv(idx) && idx.curPool == old(idx.nextPool) && fresh(blks)
+//@   loop 0 invariant forall b BucketIndex :: (b in idx.curPool) ==> len(idx.curPool[b]) < (1 << 31) - 8
+//@   loop 1 invariant held(idx.flushLock) && held(idx.bucketLk) && gflushed && 0 <= $idx && $idx <= len(blks) && idx.buckets == old(idx.buckets)
